@@ -122,17 +122,36 @@ Definition proof_of_sx (a : sx) : option proof :=
   | _ => None
   end.
 
+(* the checkDomain argument: a byte string d is StaticDomain d; ('allow) ('deny) ('error)
+   ('suffix x) are caller-written policies *)
+Fixpoint is_suffix_rev (rs rl : bytes) : bool :=
+  match rs, rl with
+  | [], _ => true
+  | x :: rs', y :: rl' => N.eqb x y && is_suffix_rev rs' rl'
+  | _ :: _, [] => false
+  end.
+Definition cd_of (a : sx) : bytes -> res bool :=
+  match a with
+  | SBytes d => static_domain d
+  | SL [SA k] =>
+      if String.eqb k "allow" then fun _ => Ok true
+      else if String.eqb k "deny" then fun _ => Ok false
+      else fun _ => Err EOther
+  | SL [SA _; SBytes suf] => fun s => Ok (is_suffix_rev (rev suf) (rev s))
+  | _ => fun _ => Err EOther
+  end.
+
 (* c19.check: (secret ltproof ltpayload domain exec proof now hmac b64 boc lib ext verify) *)
 Definition run_check (a : sx) : sx :=
   match a with
-  | SL [SBytes secret; SZ ltp; SZ ltpl; SBytes dom; ex; pr; SZ now; SL ht; b64o; bo; lo; eo; SL vt] =>
+  | SL [SBytes secret; SZ ltp; SZ ltpl; dom; ex; pr; SZ now; SL ht; b64o; bo; lo; eo; SL vt] =>
       match proof_of_sx pr with
       | None => sx_err "c19.check proof"
       | Some tp =>
           let r := check_proof sha256 (verify_of vt) (fun _ => opt_bytes b64o) (boc_of bo)
                      (fun _ => bool_of lo) (fun _ => bool_of eo) known_wallets (fun _ => exec_of ex)
                      (check_payload (hmac_of ht) secret (lifetime_or_default ltpl defaultLifeTimePayload) now)
-                     (static_domain dom)
+                     (cd_of dom)
                      (lifetime_or_default ltp defaultLifeTimeProof) now tp in
           out_res (fun k => SL [SB true; SBytes k]) r
       end
@@ -157,10 +176,31 @@ Definition run_hist (a : sx) : sx :=
   | _ => sx_err "c19.hist"
   end.
 
+Definition nominal_now : Z := 1700000000500000000%Z.
+
+(* c19.genpayload: (secret ltpayload other): a payload from GeneratePayload under [secret] is well
+   formed, carries the MAC under the full secret, is accepted by a server with the same secret
+   and by a server with [other] only if other = secret.  The model runs generate_payload and
+   check_payload with a MAC that depends on every byte of the key. *)
+Definition run_genpayload (a : sx) : sx :=
+  match a with
+  | SL [SBytes secret; SZ lt; SBytes other] =>
+      (* a MAC keyed the way HMAC keys are laid out (RFC 2104): zero-padded to the block size,
+         hashed first when longer than the block *)
+      let eff (k : bytes) : bytes :=
+        let k1 := if (64 <? List.length k)%nat then sha256 k else k in
+        k1 ++ repeat 0%N (64 - List.length k1) in
+      let hm : bytes -> bytes -> bytes := fun k m => sha256 (eff k ++ m) in
+      let lp := lifetime_or_default lt defaultLifeTimePayload in
+      let p := generate_payload hm secret (repeat 7%N 8) lp nominal_now in
+      let ok s := match check_payload hm s lp nominal_now p with Ok true => true | _ => false end in
+      SL [SB (Nat.eqb (List.length p) 64); SB true; SB (ok secret); SB (ok other)]
+  | _ => sx_err "c19.genpayload"
+  end.
+
 (* c19.clock: (ltproof ltpayload dproof dpayload usegen): everything is built by the model at
    a nominal clock; the implementation does the same at the real clock.  The signature is
    honest by construction (verify = true), the HMAC is any fixed function. *)
-Definition nominal_now : Z := 1700000000500000000%Z.
 
 Definition run_clock (a : sx) : sx :=
   match a with
@@ -191,5 +231,6 @@ Definition run (name : string) (a : sx) : sx :=
   else if is "c19.stateinit" then run_stateinit a
   else if is "c19.check" then run_check a
   else if is "c19.hist" then run_hist a
+  else if is "c19.genpayload" then run_genpayload a
   else if is "c19.clock" then run_clock a
   else sx_err "unknown case kind".
